@@ -222,6 +222,7 @@ structure MSt where
   files : Nat := 0
   frames : Nat := 0
   items : Nat := 0
+  sawPanic : Bool := false     -- the daemon panicked while bytes were being sent (reported in a `b` block)
 
 def monInit (f : List String) : MSt := { st := init f }
 
@@ -246,7 +247,8 @@ def gateVariants (f : List String) : List (String × List String) :=
    ("disk-check-passed", setKv f "disk" "1"),
    ("disk-check-failed", setKv f "disk" "0")]
 
-def monStep' (m : MSt) (bl : Block) : MSt × List String :=
+def monStep' (m0 : MSt) (bl : Block) : MSt × List String :=
+  let m := { m0 with sawPanic := m0.sawPanic || bl.outs.any (fun l => l == ["conn", "panic"]) }
   let (st', _) := step m.st bl
   match bl.op with
   | ["end"] =>
@@ -266,8 +268,9 @@ def monStep' (m : MSt) (bl : Block) : MSt × List String :=
       let c := classify (if e.isEmpty then g else e) g
       -- with the throttle on, what reaches storage is decided by the bucket size and the minimum clip
       -- length (min-secs + preview-secs) the daemon hands to the throttle: a difference is C05's as well
-      let thr := if kvN m.st.f "throttle" == 1 && !c.startsWith "prop=C14"
-        then ["prop=C05 reason=throttled-recordings-differ-from-bucket-and-minimum-length-formulas"] else []
+      let thr := if kvN m.st.f "throttle" == 1 && (!c.startsWith "prop=C14" || m.sawPanic)
+        then ["prop=C05 reason=throttled-recordings-differ-from-bucket-and-minimum-length-formulas",
+              "prop=C06 reason=throttled-recordings-differ-from-bucket-and-minimum-length-formulas"] else []
       let c04 := (gateVariants m.st.f).filterMap fun (nm, f') =>
         if f' != m.st.f && (finish { m.st with f := f' }).map fields == got
         then some s!"prop=C04 reason=recordings-are-those-expected-if-{nm}" else none
@@ -287,7 +290,11 @@ def monStep' (m : MSt) (bl : Block) : MSt × List String :=
                     e'.filter (·.startsWith "finished=") == g.filter (·.startsWith "finished=")
         then ["prop=C10 reason=temporary-files-left-behind-differ-after-the-connection-ended"] else []
       -- C12: the frame loop must survive everything (a panic inside handleConn ends the connection abnormally)
-      let c12 := if got.any (fun l => l == ["conn", "panic"]) then ["prop=C12 reason=frame-processing-panicked"] else []
+      let c12 := if m.sawPanic then
+          ["prop=C12 reason=frame-processing-panicked"] ++
+          (if m.st.reqOffsets.isEmpty && m.st.prev.all (fun c => c.2.1.isEmpty) then []
+           else ["prop=C16 reason=frame-processing-crashed-in-a-connection-with-a-test-recording-request"])
+        else []
       -- C17: a test recording is one file of testLast+1 frames (plus the background frame the file starts with)
       let testN := s!"nframes={Facts.testRecLast + 2}"
       let cnt (ls : List (List String)) := (ls.filter fun l => l.take 2 == ["file", "main"] && l.contains testN).length
